@@ -15,6 +15,11 @@
 //                                 checkPos checkVel checkAcc Euler implicit RungeKutta(a) EulerSkip(a) implicitSkip(a)
 //                                 compareFwdInv invPosition invVelocity invConstraint resetData resetKey(a) kinematics
 //                                 rnePostConstraint subtreeVel   -> ok | error <msg>
+//                                 leaf calls of the constraint stage (second layer of the footprint table):
+//                                 mulJacVec_efcb mulJacVec_jar_warmstart mulJacVec_jar_qacc mulM_Ma_warmstart
+//                                 constraintUpdate_jar(a=seed) constraintUpdate_efcb constraintUpdate_null(a=seed)
+//                                 solPGS solCG solNewton solNoSlip dispatch solNoSlip_island(a=island) dualFinish
+//                                 (a "jar" / "Ma" local of the caller is a harness buffer; as an INPUT it is filled from `seed`)
 //   copydata <dst> <src> | copystate <dst> <src> <sig> | getstate <k> <sig> | setstate <k> <sig> v... | statesize <sig>
 //   xferstate <dst> <src> <sig>   mj_getState(src) ; mj_setState(dst)   (through a state vector)
 //   poison <k> <seed> f...        junk into exactly the listed fields; "$arena" = the unallocated part of the arena+stack
@@ -39,6 +44,8 @@
 #include <mujoco/mujoco.h>
 #include <mujoco/mjxmacro.h>
 #include "mjbuild.h"
+#include "engine/engine_solver.h"
+#include "engine/engine_thread.h"
 #undef MJ_M
 #undef MJ_D
 #define MJ_M(n) m->n
@@ -241,6 +248,51 @@ static void poison_field(Field* f) {
 
 #define SLOT(i) (((i) >= 0 && (i) < NSLOT) ? D[i] : NULL)
 
+// the callback mj_fwdConstraint hands to mju_dispatch is static; this one makes the same three-way choice
+static void island_task(const mjModel* mm, mjData* dd, void* arg, int thread_id, int island) {
+  (void)arg; (void)thread_id;
+  if (mm->opt.solver == mjSOL_NEWTON) mj_solNewton_island(mm, dd, island, mm->opt.iterations);
+  else if (mm->opt.solver == mjSOL_CG) mj_solCG_island(mm, dd, island, mm->opt.iterations);
+  else mj_solPGS_island(mm, dd, island, mm->opt.iterations);
+}
+
+// a local vector of the calling function: harness-owned, filled deterministically when it is an input
+static mjtNum* local_vec(size_t n, int seed, int fill) {
+  static mjtNum* buf = NULL; static size_t cap = 0;
+  if (n + 1 > cap) { free(buf); cap = n + 1; buf = (mjtNum*)malloc(sizeof(mjtNum) * cap); }
+  if (fill) {
+    uint64_t s = (uint64_t)seed * 2654435761ULL + 88172645463325252ULL;
+    for (size_t i = 0; i < n; i++) { s ^= s << 13; s ^= s >> 7; s ^= s << 17; buf[i] = ((double)(int64_t)(s % 4001) - 2000.0) / 1000.0; }
+  }
+  return buf;
+}
+
+static int do_leaf(mjData* d, const char* fn, int a) {
+  int nit = m->opt.noslip_iterations;
+  mjtNum cost = 0;
+  // the dual solvers need efc_AR, which the position stage builds only for PGS / noslip models: not applicable otherwise
+  int dual = !strcmp(fn, "solPGS") || !strcmp(fn, "solNoSlip") || !strcmp(fn, "solNoSlip_island") ||
+             (!strcmp(fn, "dispatch") && m->opt.solver == mjSOL_PGS);
+  if (dual && (!d->efc_AR || d->nefc == 0)) return 2;
+  if (!strncmp(fn, "solNoSlip", 9) && nit <= 0) return 2;
+  if (!strcmp(fn, "mulJacVec_efcb")) mj_mulJacVec(m, d, d->efc_b, d->qacc_smooth);
+  else if (!strcmp(fn, "mulJacVec_jar_warmstart")) mj_mulJacVec(m, d, local_vec(d->nefc, 0, 0), d->qacc_warmstart);
+  else if (!strcmp(fn, "mulJacVec_jar_qacc")) mj_mulJacVec(m, d, local_vec(d->nefc, 0, 0), d->qacc);
+  else if (!strcmp(fn, "mulM_Ma_warmstart")) mj_mulM(m, d, local_vec(m->nv, 0, 0), d->qacc_warmstart);
+  else if (!strcmp(fn, "constraintUpdate_jar")) mj_constraintUpdate(m, d, local_vec(d->nefc, a, 1), &cost, 0);
+  else if (!strcmp(fn, "constraintUpdate_efcb")) mj_constraintUpdate(m, d, d->efc_b, &cost, 0);
+  else if (!strcmp(fn, "constraintUpdate_null")) mj_constraintUpdate(m, d, local_vec(d->nefc, a, 1), NULL, 0);
+  else if (!strcmp(fn, "solPGS")) mj_solPGS(m, d, m->opt.iterations);
+  else if (!strcmp(fn, "solCG")) mj_solCG(m, d, m->opt.iterations);
+  else if (!strcmp(fn, "solNewton")) mj_solNewton(m, d, m->opt.iterations);
+  else if (!strcmp(fn, "solNoSlip")) mj_solNoSlip(m, d, nit);
+  else if (!strcmp(fn, "dispatch")) mju_dispatch(m, d, island_task, NULL, d->nisland);
+  else if (!strcmp(fn, "solNoSlip_island")) { if (a >= 0 && a < d->nisland) mj_solNoSlip_island(m, d, a, nit); }
+  else if (!strcmp(fn, "dualFinish")) mj_dualFinish(m, d);
+  else return 0;
+  return 1;
+}
+
 static int do_call(mjData* d, const char* fn, int a, int b) {
   if (!strcmp(fn, "forward")) mj_forward(m, d);
   else if (!strcmp(fn, "inverse")) mj_inverse(m, d);
@@ -276,7 +328,7 @@ static int do_call(mjData* d, const char* fn, int a, int b) {
   else if (!strcmp(fn, "kinematics")) mj_kinematics(m, d);
   else if (!strcmp(fn, "rnePostConstraint")) mj_rnePostConstraint(m, d);
   else if (!strcmp(fn, "subtreeVel")) mj_subtreeVel(m, d);
-  else return 0;
+  else return do_leaf(d, fn, a);
   return 1;
 }
 
@@ -416,7 +468,8 @@ int main(void) {
       mjData* d = SLOT(atoi(tok[1]));
       if (!d) { printf("bad-op\n"); fflush(stdout); continue; }
       int a = n > 3 ? atoi(tok[3]) : 0, b = n > 4 ? atoi(tok[4]) : 0;
-      printf(do_call(d, tok[2], a, b) ? "ok\n" : "bad-op\n");
+      int rc = do_call(d, tok[2], a, b);
+      printf(rc == 1 ? "ok\n" : rc == 2 ? "na\n" : "bad-op\n");
     } else if (!strcmp(op, "copydata") && n == 3) {
       mjData* a = SLOT(atoi(tok[1])); mjData* b = SLOT(atoi(tok[2]));
       if (!a || !b) printf("bad-op\n"); else { mj_copyData(a, m, b); printf("ok\n"); }
